@@ -83,13 +83,15 @@ func c06Gen(r *RNG, id string, prop string) *Case {
 	if wide {
 		// an alignment wider than a genome: raw distances d/L and d/(L-1) differ by less than the nine printed decimals
 		// (1/50000 - 1/49999 ~ 4e-10), so "nearest" must be decided on the distances, not on what is printed
-		w, nq, nt = r.Range(40000, 60000), 1, r.Range(2, 4)
+		w, nq, nt = r.Range(50000, 70000), 1, r.Range(2, 4)
 		c.Tag("wide-near-tie")
 	}
 	base := randSeq(r, w, symACGT, false)
 	var qs, ts []string
 	if wide {
-		// the query is unresolved over a tract: a target resolved there is more complete without being compared there
+		// the query is unresolved over a tract: a target resolved there is more complete without being compared there.
+		// Targets 0 and 1 are the pair that matters: the same number of differences, target 1 resolved over the tract
+		// (more complete) but with one more N elsewhere (one compared column fewer: strictly further, by ~3e-10)
 		qb := []byte(base)
 		t0 := r.Intn(w - 300)
 		tl := r.Range(20, 200)
@@ -97,19 +99,47 @@ func c06Gen(r *RNG, id string, prop string) *Case {
 			qb[j] = 'N'
 		}
 		qs = append(qs, string(qb))
+		free := func() int { // a column outside the tract
+			for {
+				if j := r.Intn(w); j < t0 || j >= t0+tl {
+					return j
+				}
+			}
+		}
+		d0, m0 := r.PickInt([]int{1, 1, 2}), r.Intn(3)
 		for i := 0; i < nt; i++ {
 			b := []byte(base)
-			if r.Bool() {
+			tractN, d, m := r.Bool(), r.PickInt([]int{1, 1, 1, 2}), r.Intn(4)
+			if i == 0 {
+				tractN, d, m = true, d0, m0
+			} else if i == 1 {
+				tractN, d, m = false, d0, m0+1
+			}
+			if tractN {
 				copy(b[t0:t0+tl], qb[t0:t0+tl])
 			}
-			for d := r.PickInt([]int{1, 1, 1, 2}); d > 0; d-- {
-				j := r.Intn(w)
+			used := map[int]bool{}
+			for ; d > 0; d-- {
+				j := free()
+				for used[j] {
+					j = free()
+				}
+				used[j] = true
 				b[j] = r.Pick(strings.ReplaceAll(symACGT, string(base[j]), ""))
 			}
-			for m := r.Intn(4); m > 0; m-- { // the more N, the less complete and the fewer compared columns
-				b[r.Intn(w)] = 'N'
+			for ; m > 0; m-- {
+				j := free()
+				for used[j] {
+					j = free()
+				}
+				used[j] = true
+				b[j] = 'N'
 			}
 			ts = append(ts, string(b))
+		}
+		for i := len(ts) - 1; i > 0; i-- { // file order at random
+			j := r.Intn(i + 1)
+			ts[i], ts[j] = ts[j], ts[i]
 		}
 		nq, nt = 0, 0 // skip the ordinary loops
 	}
